@@ -1207,3 +1207,162 @@ TWINS += [
         (M, _APPLY, "                match = _compiled(test_part.content).match(target)\n"),
     ]},
 ]
+
+
+# ======================================================================
+# round 3: (a) the two loops over `state.rules` merged into one helper that each call site feeds with its own candidates
+# (the fallback site with a *filtered* iteration), the rule found followed through the call site; (b) the traversal of
+# update() handing on a successor list that is built up front, statement by statement
+
+_FALLBACK_LOOP = '            if parts == [""]:\n                for rule in state.rules:\n' + _LOOP2
+
+
+def _fallback_site(arg: str, test: str = "hit is not None") -> str:
+    return (
+        '            if parts == [""]:\n'
+        f"                hit = _first_usable({arg})\n"
+        f"                if {test}:\n"
+        "                    return hit, values\n"
+    )
+
+
+_SHARED = [(M, _LOOP1, _HELPER_CALL), (M, "        def _match(\n", _HELPER.replace("rules: list[Rule]", "rules: t.Iterable[Rule]"))]
+_NOT_STRICT_GEN = "candidate for candidate in state.rules if not candidate.strict_slashes"
+_PAIR_HELPER = (
+    "        def _first_usable(rules: t.Iterable[Rule], found: list[str]) -> tuple[Rule, list[str]] | None:\n"
+    "            nonlocal websocket_mismatch\n"
+    "            for rule in rules:\n"
+    "                if rule.methods is None or method in rule.methods:\n"
+    "                    if rule.websocket == websocket:\n"
+    "                        return rule, found\n"
+    "                    websocket_mismatch = True\n"
+    "                else:\n"
+    "                    have_match_for.update(rule.methods)\n"
+    "            return None\n"
+    "\n"
+    "        def _match(\n"
+)
+
+
+def _below(fill: str) -> str:
+    return (
+        "        def _update_state(state: State) -> None:\n"
+        "            state.dynamic.sort(key=lambda entry: entry[0].weight)\n"
+        + fill +
+        "            for new_state in below:\n"
+        "                _update_state(new_state)\n"
+        "\n"
+        "        _update_state(state)\n"
+    )
+
+
+_BELOW_EXTEND = "            below = list(state.static.values())\n            below.extend(target for _, target in state.dynamic)\n"
+_BELOW_APPEND = (
+    "            below: list[State] = []\n"
+    "            for following in state.static.values():\n"
+    "                below.append(following)\n"
+    "            for _, following in state.dynamic:\n"
+    "                below.append(following)\n"
+)
+_SORT_BELOW_METHOD = (
+    "    def _sort_below(self, state: State) -> None:\n"
+    "        state.dynamic.sort(key=lambda entry: entry[0].weight)\n"
+    "        todo = [target for _, target in state.dynamic]\n"
+    "        todo += state.static.values()\n"
+    "        for successor in todo:\n"
+    "            self._sort_below(successor)\n"
+    "\n"
+)
+_MATCH_DEF = "    def match(\n        self, domain: str, path: str, method: str, websocket: bool\n"
+
+MUTANTS += [
+    # (a)
+    {"name": "shared-helper-fallback-site-unfiltered-strictness-tested-after", "expect": "R3.2", "edits": [
+        *_SHARED, (M, _FALLBACK_LOOP, _fallback_site("state.rules", "hit is not None and not hit.strict_slashes"))]},
+    {"name": "shared-helper-forgets-methods-at-both-sites", "expect": "R3.2", "edits": [
+        (M, _LOOP1, _HELPER_CALL), (M, "        def _match(\n", _HELPER.replace("                    have_match_for.update(rule.methods)\n", "                    pass\n")),
+        (M, _FALLBACK_LOOP, _fallback_site(_NOT_STRICT_GEN))]},
+    {"name": "shared-helper-result-dropped-at-fallback-site", "expect": "R3.2", "edits": [
+        *_SHARED, (M, _FALLBACK_LOOP, '            if parts == [""]:\n                _first_usable(' + _NOT_STRICT_GEN + ")\n")]},
+    {"name": "shared-helper-fallback-filter-on-methods-records-strict-rules", "expect": "R3.2", "edits": [
+        *_SHARED, (M, _FALLBACK_LOOP, _fallback_site("filter(lambda r: r.methods is not None, state.rules)", "hit is not None and not hit.strict_slashes"))]},
+    # (b)
+    {"name": "successor-list-dynamic-targets-only-behind-static", "expect": "R3.1", "edits": [(M, _UPDATE_BODY, _below(
+        "            below = list(state.static.values())\n            if below:\n                below.extend(target for _, target in state.dynamic)\n"))]},
+    {"name": "successor-list-forgets-dynamic-targets", "expect": "R3.1", "edits": [(M, _UPDATE_BODY, _below("            below = list(state.static.values())\n"))]},
+    {"name": "successor-list-collects-parts-not-states", "expect": "R3.1", "edits": [(M, _UPDATE_BODY, _below(_BELOW_EXTEND.replace("target for _, target in", "part for part, _ in")))]},
+    {"name": "successor-list-filter-drops-states-without-dynamic", "expect": "R3.1", "edits": [(M, _UPDATE_BODY, _below(_BELOW_EXTEND.replace("in state.dynamic)", "in state.dynamic if target.dynamic)")))]},
+    {"name": "successor-list-static-loop-appends-nothing-it-was-given", "expect": "R3.1", "edits": [(M, _UPDATE_BODY, _below(_BELOW_APPEND.replace(
+        "            for following in state.static.values():\n                below.append(following)\n", "")))]},
+    {"name": "sort-below-method-augassign-keys-not-states", "expect": "R3.1", "edits": [
+        (M, _UPDATE_BODY, "        self._sort_below(state)\n"), (M, _MATCH_DEF, _SORT_BELOW_METHOD.replace("todo += state.static.values()", "todo += state.static.keys()") + _MATCH_DEF)]},
+]
+
+TWINS += [
+    # (a)
+    {"name": "shared-helper-fallback-site-generator-filter", "edits": [*_SHARED, (M, _FALLBACK_LOOP, _fallback_site(_NOT_STRICT_GEN))]},
+    {"name": "shared-helper-fallback-site-builtin-filter-walrus", "edits": [*_SHARED, (M, _FALLBACK_LOOP,
+        '            if parts == [""]:\n'
+        "                if (hit := _first_usable(filter(lambda r: not r.strict_slashes, state.rules))) is not None:\n"
+        "                    return hit, values\n")]},
+    {"name": "shared-helper-fallback-site-list-comprehension-keyword", "edits": [*_SHARED, (M, _FALLBACK_LOOP,
+        _fallback_site("rules=[r for r in state.rules if not r.strict_slashes]", "hit is None") .replace("                    return hit, values\n", "                    return None\n                return hit, values\n"))]},
+    {"name": "shared-helper-fallback-site-local-candidates", "edits": [*_SHARED, (M, _FALLBACK_LOOP,
+        '            if parts == [""]:\n'
+        "                lenient = (r for r in state.rules if r.strict_slashes is False or not r.strict_slashes)\n"
+        "                hit = _first_usable(lenient)\n"
+        "                if hit:\n"
+        "                    return hit, values\n")]},
+    {"name": "shared-helper-returns-the-pair", "edits": [
+        (M, _LOOP1, "                pair = _first_usable(state.rules, values)\n                if pair is not None:\n                    return pair\n\n                # Test if there is a match with this path with a\n"),
+        (M, "        def _match(\n", _PAIR_HELPER),
+        (M, _FALLBACK_LOOP, '            if parts == [""]:\n                return _first_usable((r for r in state.rules if not r.strict_slashes), values)\n')]},
+    {"name": "shared-helper-strictness-tested-at-the-site-too", "edits": [*_SHARED, (M, _FALLBACK_LOOP, _fallback_site(_NOT_STRICT_GEN, "hit is not None and not hit.strict_slashes"))]},
+    {"name": "converters-iterated-as-items", "edits": [(M,
+        "            for name, value in zip(rule._converters.keys(), values):\n                try:\n                    value = rule._converters[name].to_python(value)\n",
+        "            for (name, converter), raw in zip(rule._converters.items(), values):\n                try:\n                    value = converter.to_python(raw)\n")]},
+    # (b)
+    {"name": "successor-list-assigned-then-extended", "edits": [(M, _UPDATE_BODY, _below(_BELOW_EXTEND))]},
+    {"name": "successor-list-filled-by-append-loops", "edits": [(M, _UPDATE_BODY, _below(_BELOW_APPEND))]},
+    {"name": "successor-list-filter-drops-leaves-only", "edits": [(M, _UPDATE_BODY, _below(_BELOW_EXTEND.replace("in state.dynamic)", "in state.dynamic if target.dynamic or len(target.static) > 0)")))]},
+    {"name": "sort-below-method-dynamic-first-augassign", "edits": [(M, _UPDATE_BODY, "        self._sort_below(state)\n"), (M, _MATCH_DEF, _SORT_BELOW_METHOD + _MATCH_DEF)]},
+    {"name": "successor-list-unconditional-behind-leaf-exit", "edits": [(M, _UPDATE_BODY, _below(
+        "            if not state.static and not state.dynamic:\n                return\n" + _BELOW_EXTEND))]},
+]
+
+# the helper skips strict rules itself when the call site asks for it (a constant argument), or iterates an expression of its parameter
+_FLAG_HELPER = (
+    "        def _first_usable(rules: list[Rule], lenient_only: bool = False) -> Rule | None:\n"
+    "            nonlocal websocket_mismatch\n"
+    "            for rule in rules:\n"
+    "                if lenient_only and rule.strict_slashes:\n"
+    "                    continue\n"
+    "                if rule.methods is not None and method not in rule.methods:\n"
+    "                    have_match_for.update(rule.methods)\n"
+    "                elif rule.websocket != websocket:\n"
+    "                    websocket_mismatch = True\n"
+    "                else:\n"
+    "                    return rule\n"
+    "            return None\n"
+    "\n"
+    "        def _match(\n"
+)
+_FLAG_SKIP = "                if lenient_only and rule.strict_slashes:\n                    continue\n"
+
+MUTANTS += [
+    {"name": "shared-helper-flag-strictness-skipped-after-recording", "expect": "R3.2", "edits": [
+        (M, _LOOP1, _HELPER_CALL),
+        (M, "        def _match(\n", _FLAG_HELPER.replace(_FLAG_SKIP, "").replace("                elif rule.websocket != websocket:\n", _FLAG_SKIP.replace("if lenient_only", "elif lenient_only").replace("continue", "pass") + "                elif rule.websocket != websocket:\n")),
+        (M, _FALLBACK_LOOP, _fallback_site("state.rules, lenient_only=True"))]},
+    {"name": "shared-helper-flag-not-set-at-fallback-site", "expect": "R3.2", "edits": [
+        (M, _LOOP1, _HELPER_CALL), (M, "        def _match(\n", _FLAG_HELPER),
+        (M, _FALLBACK_LOOP, _fallback_site("state.rules, lenient_only=False", "hit is not None and not hit.strict_slashes"))]},
+]
+
+TWINS += [
+    {"name": "shared-helper-flag-selects-lenient-rules", "edits": [
+        (M, _LOOP1, _HELPER_CALL), (M, "        def _match(\n", _FLAG_HELPER), (M, _FALLBACK_LOOP, _fallback_site("state.rules, lenient_only=True"))]},
+    {"name": "shared-helper-iterates-an-expression-of-its-parameter", "edits": [
+        (M, _LOOP1, _HELPER_CALL), (M, "        def _match(\n", _HELPER.replace("rules: list[Rule]", "rules: t.Iterable[Rule]").replace("for rule in rules:", "for rule in iter(rules):")),
+        (M, _FALLBACK_LOOP, _fallback_site(_NOT_STRICT_GEN))]},
+]
